@@ -243,6 +243,7 @@ impl<Context: ServerContext> HttpRouter<Context> {
 
         let mut all_segments = all_segments.into_iter();
         let mut varnames: BTreeSet<String> = BTreeSet::new();
+        let methodname = method.as_str().to_uppercase();
 
         let mut node: &mut Box<HttpRouterNode<Context>> = &mut self.root;
         while let Some(raw_segment) = all_segments.next() {
@@ -338,6 +339,18 @@ impl<Context: ServerContext> HttpRouter<Context> {
 
                     insert_var(&path, &mut varnames, &new_varname);
 
+                    // The wildcard also matches zero remaining segments,
+                    // i.e., the very path that routes registered directly
+                    // on this node match.
+                    if let Some(handlers) = node.methods.get(&methodname) {
+                        check_wildcard_conflict(
+                            &path,
+                            &methodname,
+                            handlers,
+                            &endpoint.versions,
+                        );
+                    }
+
                     let edges = node.edges.get_or_insert(
                         HttpRouterEdges::VariableRest(
                             new_varname.clone(),
@@ -390,7 +403,21 @@ impl<Context: ServerContext> HttpRouter<Context> {
             };
         }
 
-        let methodname = method.as_str().to_uppercase();
+        // See the analogous check above: a wildcard route below this node
+        // matches this node's path, too.
+        if let Some(HttpRouterEdges::VariableRest(_, wildcard_node)) =
+            &node.edges
+        {
+            if let Some(handlers) = wildcard_node.methods.get(&methodname) {
+                check_wildcard_conflict(
+                    &path,
+                    &methodname,
+                    handlers,
+                    &endpoint.versions,
+                );
+            }
+        }
+
         let existing_handlers =
             node.methods.entry(methodname.clone()).or_default();
 
@@ -496,24 +523,44 @@ impl<Context: ServerContext> HttpRouter<Context> {
             })?
         }
 
-        // The wildcard match consumes the implicit, empty path segment
-        match &node.edges {
+        // A wildcard edge also matches the implicit, empty remainder of the
+        // path.  Routes registered for exactly this path live on `node`
+        // itself, so both nodes are candidates (`insert()` makes sure that at
+        // most one of them has a handler for a given method and version).
+        let wildcard_node = match &node.edges {
             Some(HttpRouterEdges::VariableRest(varname, new_node)) => {
-                variables
-                    .insert(varname.clone(), VariableValue::Components(vec![]));
                 // There should be no outgoing edges
                 assert!(new_node.edges.is_none());
-                node = new_node;
+                Some((varname, new_node))
             }
-            _ => {}
-        }
+            _ => None,
+        };
 
         // First, look for a matching implementation.
         let methodname = method.as_str().to_uppercase();
-        if let Some(handler) = find_handler_matching_version(
+        let mut found = find_handler_matching_version(
             node.methods.get(&methodname).map(|v| v.as_slice()).unwrap_or(&[]),
             version,
-        ) {
+        );
+        if found.is_none() {
+            if let Some((varname, wildcard_node)) = wildcard_node {
+                found = find_handler_matching_version(
+                    wildcard_node
+                        .methods
+                        .get(&methodname)
+                        .map(|v| v.as_slice())
+                        .unwrap_or(&[]),
+                    version,
+                );
+                if found.is_some() {
+                    variables.insert(
+                        varname.clone(),
+                        VariableValue::Components(vec![]),
+                    );
+                }
+            }
+        }
+        if let Some(handler) = found {
             return Ok(RouterLookupResult {
                 handler: Arc::clone(&handler.handler),
                 endpoint: RequestEndpointMetadata {
@@ -529,9 +576,16 @@ impl<Context: ServerContext> HttpRouter<Context> {
         // We're going to report a 404 ("Not Found") or 405 ("Method Not
         // Allowed").  It's a 405 if there are any handlers matching this path
         // and version for a different method.  It's a 404 otherwise.
-        if node.methods.values().any(|handlers| {
-            find_handler_matching_version(handlers, version).is_some()
-        }) {
+        let allowed_methods = std::iter::once(node)
+            .chain(wildcard_node.map(|(_, wildcard_node)| wildcard_node))
+            .flat_map(|n| n.methods.iter())
+            .filter(|(_, handlers)| {
+                find_handler_matching_version(handlers.iter(), version)
+                    .is_some()
+            })
+            .map(|(allowed, _)| allowed)
+            .collect::<BTreeSet<_>>();
+        if !allowed_methods.is_empty() {
             let mut err = HttpError::for_client_error_with_status(
                 None,
                 ClientErrorStatusCode::METHOD_NOT_ALLOWED,
@@ -546,14 +600,12 @@ impl<Context: ServerContext> HttpRouter<Context> {
             //
             // See: https://httpwg.org/specs/rfc9110.html#status.405
             if let Some(hdrs) = err.headers.as_deref_mut() {
-                hdrs.reserve(node.methods.len());
+                hdrs.reserve(allowed_methods.len());
             }
             // Only list methods that are served at the requested version.
-            for (allowed, handlers) in &node.methods {
-                if find_handler_matching_version(handlers, version).is_some() {
-                    err.add_header(http::header::ALLOW, allowed)
-                        .expect("method should be a valid allow header");
-                }
+            for allowed in allowed_methods {
+                err.add_header(http::header::ALLOW, allowed)
+                    .expect("method should be a valid allow header");
             }
             Err(err)
         } else {
@@ -590,6 +642,29 @@ where
     C: ServerContext,
 {
     handlers.into_iter().find(|h| h.versions.matches(version))
+}
+
+/// Panic if a route for `versions` would be ambiguous with one of `handlers`,
+/// which are registered for the same method on the other side of a wildcard
+/// edge: a wildcard matches the empty remainder of a path, so a request for
+/// the path leading up to the wildcard matches both routes.
+fn check_wildcard_conflict<C: ServerContext>(
+    path: &str,
+    methodname: &str,
+    handlers: &[ApiEndpoint<C>],
+    versions: &ApiEndpointVersions,
+) {
+    for handler in handlers {
+        if handler.versions.overlaps_with(versions) {
+            panic!(
+                "URI path \"{}\": attempted to register handler for method \
+                 \"{}\" when route \"{}\" matches the same requests with \
+                 an overlapping version range (a wildcard also matches the \
+                 empty path)",
+                path, methodname, handler.path
+            );
+        }
+    }
 }
 
 /// Insert a variable into the set after checking for duplicates.
